@@ -1,0 +1,21 @@
+// Copyright 2024 The Go Authors. All rights reserved.
+// Use of this source code is governed by a BSD-style
+// license that can be found in the LICENSE file.
+
+//go:build verif
+
+package zip
+
+import "os"
+
+// SimListing, if set, may replace the result of Unzip's listing of its
+// target directory, so that a simulator can make the listing fail.
+// It exists only in builds with the "verif" tag.
+var SimListing func(dir string, files []os.DirEntry, err error) ([]os.DirEntry, error)
+
+func simListing(dir string, files []os.DirEntry, err error) ([]os.DirEntry, error) {
+	if SimListing != nil {
+		return SimListing(dir, files, err)
+	}
+	return files, err
+}
